@@ -140,6 +140,12 @@ def run(tier: str, seed: int) -> int:
             for _rb in ("sum", "average"):
                 _cases.append(dict(id=f"spec/{_D}/{_N}/{_pw}/{_rb}", name="get_spectrum", args=[_u], kw=dict(power=_pw, radial_binning=_rb)))
     _xs.compare(run_, PID, _cases, work + "_xs")
+    # the composed machine (spec/Session.tla): multi-step API sessions generated by TLC -simulate, replayed call by call; this check
+    # reports the mismatches of the operations it owns (spectrum)
+    from .. import session
+    import jax.numpy as _jnp
+    import exponax as _ex
+    session.run_for(run_, tier, seed, _ex, _jnp, ['spectrum'], PID)
     return run_.finish()
 
 
